@@ -11,10 +11,11 @@ From IronCalc Require Import Base.Prelude Xlsx.Skeleton Xlsx.SkeletonProofs Xlsx
 (* the property at full strength (for the skeleton): no package makes the importer panic *)
 Definition C25_statement : Prop := forall p : pkg, load_skel p <> Panic.
 
-(* F19a: a worksheet part without <sheetData>  (worksheets.rs `.collect::<Vec<Node>>()[0]`) *)
-Theorem C25_refuted_no_sheetdata : ~ C25_statement.
-Proof. exact refuted_no_sheetdata. Qed.
-Print Assumptions C25_refuted_no_sheetdata.
+(* F19a REPAIRED (2db1935: `.find(sheetData).ok_or_else(..)?`): a worksheet part without
+   <sheetData> is an import error; the former witness satisfies the guard and returns Err *)
+Theorem C25_fixed_no_sheetdata : guard w_no_sheetdata = true /\ load_skel w_no_sheetdata = Err.
+Proof. exact fixed_no_sheetdata. Qed.
+Print Assumptions C25_fixed_no_sheetdata.
 
 (* F19b: a comments Target shorter than two bytes  (worksheets.rs `target.replace_range(..2, v[0])`) *)
 Theorem C25_refuted_short_target : ~ C25_statement.
@@ -40,15 +41,18 @@ Theorem C25_refuted_no_worksheets_dir : ~ C25_statement.
 Proof. exact refuted_no_worksheets_dir. Qed.
 Print Assumptions C25_refuted_no_worksheets_dir.
 
-(* new: a sheet whose r:id is not in workbook.xml.rels  (worksheets.rs `&rels[&sheet.id]`) *)
-Theorem C25_refuted_dangling_rid : ~ C25_statement.
-Proof. exact refuted_dangling_rid. Qed.
-Print Assumptions C25_refuted_dangling_rid.
+(* F19d REPAIRED (f8b4521: `rels.get(&sheet.id).ok_or_else(..)?`): a sheet whose r:id is not in
+   workbook.xml.rels is an import error *)
+Theorem C25_fixed_dangling_rid : guard w_dangling_rid = true /\ load_skel w_dangling_rid = Err.
+Proof. exact fixed_dangling_rid. Qed.
+Print Assumptions C25_fixed_dangling_rid.
 
-(* new: localSheetId beyond the sheets  (workbook.rs `sheets[index]`) *)
-Theorem C25_refuted_local_sheet_id : ~ C25_statement.
-Proof. exact refuted_local_sheet_id_out_of_range. Qed.
-Print Assumptions C25_refuted_local_sheet_id.
+(* F19e REPAIRED (d5aa85e: `sheets.get(index).ok_or_else(..)?`): a localSheetId beyond the
+   sheets is an import error *)
+Theorem C25_fixed_local_sheet_id :
+  guard w_local_sheet_id_out_of_range = true /\ load_skel w_local_sheet_id_out_of_range = Err.
+Proof. exact fixed_local_sheet_id_out_of_range. Qed.
+Print Assumptions C25_fixed_local_sheet_id.
 
 (* new: defined names but no worksheet relationship  (mod.rs `worksheets[0]`) *)
 Theorem C25_refuted_defined_name_without_worksheets : ~ C25_statement.
@@ -88,9 +92,8 @@ Print Assumptions C25_refuted_comment_t_without_text.
 
 (* What holds: for every package that satisfies the (decidable, structural) indexing guard, the
    importer skeleton returns Ok or Err.  The guard is the conjunction of exactly the assumptions
-   refuted above: six style containers; no rgb slice off a boundary; every <t> of a comment has
-   text; localSheetId < #sheets; every r:id resolves; every worksheet Target contains
-   "/worksheets/" and its part has <sheetData>; comments/table Targets of sheet relationships are
+   still refuted above: six style containers; no rgb slice off a boundary; every <t> of a comment
+   has text; every worksheet Target contains "/worksheets/"; comments/table Targets of sheet relationships are
    at least two bytes with a boundary at 2; defined names come with a loaded worksheet. *)
 Theorem C25_partial : forall p : pkg, guard p = true -> load_skel p <> Panic.
 Proof. exact guard_no_panic. Qed.
@@ -105,16 +108,14 @@ Print Assumptions C25_partial_nonvacuous.
 
 (* tightness: each witness violates the guard (and only then can the skeleton panic) *)
 Theorem C25_witnesses_violate_guard :
-  guard w_no_sheetdata = false /\ guard w_short_target_empty = false /\ guard w_no_worksheets_dir = false /\
-  guard w_dangling_rid = false /\ guard w_local_sheet_id_out_of_range = false /\
+  guard w_short_target_empty = false /\ guard w_no_worksheets_dir = false /\
   guard w_defined_name_without_worksheets = false /\ guard w_styles_no_cellstyles = false /\
   guard w_rgb_nonboundary = false /\ guard w_comment_t_without_text = false.
 Proof.
-  exact (conj (proj1 panics_no_sheetdata) (conj (proj1 panics_short_target_empty)
-        (conj (proj1 panics_no_worksheets_dir) (conj (proj1 panics_dangling_rid)
-        (conj (proj1 panics_local_sheet_id_out_of_range) (conj (proj1 panics_defined_name_without_worksheets)
+  exact (conj (proj1 panics_short_target_empty)
+        (conj (proj1 panics_no_worksheets_dir) (conj (proj1 panics_defined_name_without_worksheets)
         (conj (proj1 panics_styles_no_cellstyles) (conj (proj1 panics_rgb_nonboundary)
-              (proj1 panics_comment_t_without_text))))))))).
+              (proj1 panics_comment_t_without_text)))))).
 Qed.
 Print Assumptions C25_witnesses_violate_guard.
 
